@@ -53,3 +53,34 @@ def concurrent_slow(variant, nconns=4, nreq=12):
                 reqs.append({"cls": "conc", "name": "SET", "args": [tok("key", "k1"), raw]})
         steps.append({"c": c, "op": "send", "chunking": "perreq", "reqs": reqs})
     return {"handler": "rec", "nconns": nconns, "concurrent": True, "slowwrite": True, "steps": steps}
+
+
+class IdleProbe:
+    """Runs `vharness idle` beside a check (it mostly sleeps) and has TraceRESP!IdleOK judge what it measured."""
+    def __init__(self, ctx, idle_ms):
+        import threading, os
+        self.ctx, self.idle_ms, self.res = ctx, idle_ms, {}
+        self.trace = os.path.join(ctx.work, "idle.ndjson")
+        self.th = threading.Thread(target=self._run)
+        self.th.start()
+
+    def _run(self):
+        import vlib
+        try:
+            self.ctx.harness(["idle", "--out", self.trace, "--idle-ms", ",".join(str(m) for m in self.idle_ms)], timeout=max(self.idle_ms) // 1000 + 120)
+        except vlib.Inconclusive as e:
+            self.res["error"] = str(e)
+
+    def finish(self):
+        import json, vlib
+        self.th.join()
+        if "error" in self.res:
+            raise vlib.Inconclusive(self.res["error"])
+        acc, scs, lines = self.ctx.validate(self.trace, "TraceRESP", stateful=False)
+        for sc in scs:
+            if sc not in acc:
+                ev = json.loads(lines[sc][0])
+                self.ctx.violation("a connection on the %s port that was quiet for %d ms is no longer served: first PING -> %s, PING after the pause -> %s" % (
+                    ev["port"], ev["idle_ms"], ev["before"], ev["after"]), {"event": ev, "cmd": "vharness idle --idle-ms %d" % ev["idle_ms"]})
+        self.ctx.stage("idle-connections")
+        return len(scs)
